@@ -637,9 +637,30 @@ func c16r6(c *Ctx) {
 	g := f.Graph()
 	c.VisitGraph(f)
 	n := 0
+	deletesIn := func(fn *ir.Func, nd *cfgx.Node) bool {
+		for _, call := range fn.NodeCalls(nd) {
+			if id, ok := call.Expr.Fun.(*ast.Ident); ok && id.Name == "delete" && len(call.Expr.Args) == 2 && (fn.FieldOf(call.Expr.Args[0]) == locked || lhsFieldA(fn, call.Expr.Args[0]) == locked) {
+				return true
+			}
+		}
+		return false
+	}
 	unreserves := func(nd *cfgx.Node) bool {
+		if deletesIn(f, nd) {
+			return true
+		}
+		// a call through a function value that always holds a wallet method which removes the reservation on each of
+		// its paths (`forEachSpentID(txns, sw.unlockUTXO)`)
 		for _, call := range f.NodeCalls(nd) {
-			if id, ok := call.Expr.Fun.(*ast.Ident); ok && id.Name == "delete" && len(call.Expr.Args) == 2 && (f.FieldOf(call.Expr.Args[0]) == locked || lhsFieldA(f, call.Expr.Args[0]) == locked) {
+			if _, isID := ast.Unparen(call.Expr.Fun).(*ast.Ident); !isID || call.Fn == nil {
+				continue
+			}
+			body := c.P.FuncOf(call.Fn)
+			if body == nil || body.Pkg.PkgPath != ir.PkgPath("wallet") {
+				continue
+			}
+			bg := body.Graph()
+			if _, around := bg.Reach([]*cfgx.Visit{cfgx.StartAt(bg.Entry, 0)}, func(m *cfgx.Node) bool { return m.AST != nil && deletesIn(body, m) })[bg.Exit]; !around {
 				return true
 			}
 		}
@@ -666,7 +687,70 @@ func c16r6(c *Ctx) {
 			ob.Unknown("loop body edge not found")
 			continue
 		}
-		if v, skip := g.Reach([]*cfgx.Visit{cfgx.StartAfter(body, 0)}, func(nd *cfgx.Node) bool { return nd.AST != nil && unreserves(nd) })[head]; skip {
+		v, skip := g.Reach([]*cfgx.Visit{cfgx.StartAfter(body, 0)}, func(nd *cfgx.Node) bool { return nd.AST != nil && unreserves(nd) })[head]
+		if skip {
+			// collect, then release: every iteration appends the input's id to a list, and a later loop over that list,
+			// which no path to the exit avoids, removes the reservation of each element
+			var list types.Object
+			collects := func(nd *cfgx.Node) bool {
+				if nd.AST == nil || !containsNode(rs.Body, nd.AST) {
+					return false
+				}
+				for _, w := range f.WritesIn(nd.AST, false) {
+					ac, isCall := ast.Unparen(w.RHS).(*ast.CallExpr)
+					if w.RHS == nil || !isCall {
+						continue
+					}
+					if id, isID := ac.Fun.(*ast.Ident); isID && id.Name == "append" && len(ac.Args) >= 2 && rs.Value != nil && f.MentionsObj(ac.Args[1], false, f.ObjOf(rs.Value)) {
+						if o := f.ObjOf(ast.Unparen(w.LHS)); o != nil && f.ObjOf(ac.Args[0]) == o {
+							list = o
+							return true
+						}
+					}
+				}
+				return false
+			}
+			_, skipCollect := g.Reach([]*cfgx.Visit{cfgx.StartAfter(body, 0)}, collects)[head]
+			released := false
+			if !skipCollect && list != nil {
+				for _, h2 := range g.Nodes {
+					rs2, isRange := h2.AST.(*ast.RangeStmt)
+					if !isRange || rs2 == rs || rs2.Value == nil {
+						continue
+					}
+					src := f.ObjOf(ast.Unparen(rs2.X))
+					if src == nil || (src != list && copySource(f, src) != list) {
+						continue
+					}
+					var b2 *cfgx.Edge
+					for _, e := range h2.Succs {
+						if e.Kind == cfgx.Br0 {
+							b2 = e
+						}
+					}
+					if b2 == nil {
+						continue
+					}
+					if _, skips := g.Reach([]*cfgx.Visit{cfgx.StartAfter(b2, 0)}, func(nd *cfgx.Node) bool { return nd.AST != nil && unreserves(nd) })[h2]; skips {
+						continue
+					}
+					// no way from the collecting loop to the exit around the releasing loop
+					var out []*cfgx.Visit
+					for _, e := range head.Succs {
+						if e.Kind != cfgx.Br0 {
+							out = append(out, cfgx.StartAfter(e, 0))
+						}
+					}
+					if _, around := g.Reach(out, func(nd *cfgx.Node) bool { return nd == h2 })[g.Exit]; !around {
+						released = true
+					}
+				}
+			}
+			if released {
+				skip = false
+			}
+		}
+		if skip {
 			ob.Bad(c.Witness(v), "an iteration over the inputs at %s can finish without removing the input's reservation: outputs reserved for a failed formation or renewal stay unusable until the reservation period ends", c.P.Pos(rs.Pos()))
 		} else {
 			ob.OK("every input's reservation is removed")
